@@ -253,7 +253,7 @@ def _work(chunk):
 def run(ctx):
     rep = report.Report('C12', 'exploration')
     if ctx.quick:
-        hdrs, js = ['none', 'both', 'upgrade_only'], [None, 'x', '5']
+        hdrs, js = ['none', 'both', 'upgrade_only', 'other_protocol'], [None, 'x', '5']
     else:
         hdrs, js = HDRS, JS
     prod = list(itertools.product(METHODS, EIOS, TRANSPORTS, SIDKINDS, hdrs, js))
